@@ -80,6 +80,115 @@ def run_shutdown(case):
     return [out]
 
 
+def fmt_items(l):
+    return '[' + ','.join(f'({int(round(t * 8))},{i})' for t, i in l) + ']'
+
+
+def run_sched(case):
+    """the real non-real-time ClockScheduler and ClockTask, driven with stub clocks
+    (secs = (offset + beats * scale) / 8) and scripted tasks"""
+    from sc3.base.clock import ClockScheduler, ClockTask
+    sched = ClockScheduler()
+    cts = []          # creation order = clock task id
+    clocks = {}
+    tasks = {}
+    woke = []
+
+    class StubClock:
+        def __init__(self):
+            self.scale, self.offset = 1, 0
+
+        def beats2secs(self, beats):
+            return (self.offset + beats * self.scale) / 8.0
+
+    class StubTask:
+        def __init__(self, t):
+            self.t, self.n = t, 0
+
+        def __awake__(self, clock):
+            n = self.n
+            self.n += 1
+            if len(woke) > 400:
+                raise RuntimeError('runaway')
+            b = case.get('beh', {}).get(f'{self.t}:{n}')
+            if not b:
+                return None
+            for op in b[1]:
+                do(op)
+            return b[0]
+
+    def clock(c):
+        if c not in clocks:
+            clocks[c] = StubClock()
+        return clocks[c]
+
+    def task(t):
+        if t not in tasks:
+            tasks[t] = StubTask(t)
+        return tasks[t]
+
+    def do(op):
+        if op[0] == 'clock':
+            clock(op[1]).scale, clock(op[1]).offset = op[2], op[3]
+        elif op[0] == 'sched':
+            cts.append(ClockTask(op[1], clock(op[2]), task(op[3]), sched))
+        elif op[0] == 'tempo':
+            clock(op[1]).scale, clock(op[1]).offset = op[2], op[3]
+            sched.retime(clock(op[1]))
+
+    def ident(ct):
+        return next(i for i, x in enumerate(cts) if x is ct)
+
+    # wrap _wakeup to log which clock task woke at which time
+    orig = ClockTask._wakeup
+
+    def logged(self, time):
+        woke.append((time, ident(self)))
+        return orig(self, time)
+    ClockTask._wakeup = logged
+    out = []
+    try:
+        for op in case['ops']:
+            try:
+                if op[0] == 'iter':
+                    out.append(fmt_items([(t, ident(ct)) for t, ct in sched.queue]))
+                elif op[0] == 'run':
+                    del woke[:]
+                    sched.run()
+                    out.append('woke ' + fmt_items(woke))
+                else:
+                    do(op)
+                    out.append('ok')
+            except Exception as e:
+                out.append(f'EXC:{type(e).__name__}')
+    finally:
+        ClockTask._wakeup = orig
+    return out
+
+
+def run_score(case):
+    """the real OscScore: bundles added from the main thread with absolute times, then finish"""
+    from sc3.base import main as _libsc3
+    from sc3.base._oscinterface import OscScore
+    main = _libsc3.main
+    base = main.current_tt._seconds
+    score = OscScore()
+    try:
+        for t8, content in case['adds']:
+            score.add([t8 / 8.0, ['/n_set', 1000 + content, 'amp', content]])
+        score.finish(case['tail'] / 8.0)
+        lst = score.list
+    except Exception as e:
+        return [f'EXC:{type(e).__name__}: {e}'[:200]]
+    items = []
+    for b in lst:
+        m = b[1]
+        what = 'root' if m[0] == '/g_new' else 'tail' if m[0] == '/c_set' else str(m[3])
+        items.append(f'({int(round(b[0] * 8))},{what})')
+    ok = len(score.raw) > 0
+    return ['listing [' + ','.join(items) + ']', int(round(base * 8)), ok]
+
+
 def run(payload):
     res = []
     inited = False
@@ -89,6 +198,12 @@ def run(payload):
                 import sc3
                 sc3.init('nrt', 'ERROR')
                 inited = True
+            if c.get('kind') == 'sched':
+                res.append(run_sched(c))
+                continue
+            if c.get('kind') == 'score':
+                res.append(run_score(c))
+                continue
             res.append(run_shutdown(c))
         else:
             res.append(run_history(c))
